@@ -257,7 +257,7 @@ class RendezvousConnector:
         # restart the process if it fails. That would be useful here, so that
         # failAfterFailures=1 would do the right thing if the initial TCP
         # connection succeeds but the first WebSocket negotiation fails.
-        if not self._have_made_a_successful_connection:
+        if not self._have_made_a_successful_connection and not self._stopping:
             # shut down the ClientService, which currently thinks it has a
             # valid connection
             sce = errors.ServerConnectionError(self._url, reason)
